@@ -9,3 +9,20 @@ func VerifResetSharedLimiters() {
 	rateLimiterPools = make(map[int]*sharedRateLimiterPool)
 	poolsMu.Unlock()
 }
+
+// VerifWireCounters reads the byte-serving path's outcome counters (process-wide, monotonic).
+func VerifWireCounters() map[string]int64 {
+	return map[string]int64{
+		"served":         wireFastServed.Value(),
+		"fallback":       wireFastFallback.Value(),
+		"skip_entry":     wireSkipEntry.Value(),
+		"skip_writer":    wireSkipWriter.Value(),
+		"skip_dnssec":    wireSkipDNSSEC.Value(),
+		"skip_size":      wireSkipSize.Value(),
+		"skip_build":     wireSkipBuild.Value(),
+		"skip_chase":     wireSkipChase.Value(),
+		"chase_served":   wireChaseServed.Value(),
+		"cut_served":     wireCutServed.Value(),
+		"failure_served": wireFailureServed.Value(),
+	}
+}
